@@ -138,7 +138,28 @@ def _mk_tf(tf):
         q = [float(Fraction(x)) for x in m["q"]]
         t = [float(Fraction(x)) for x in m["t"]]
         mats.append(M["HomogeneousMatrix"](tuple(t), M["Quaternion"](*q), m["src"], m["dst"]))
-    return M["TransformDict"](mats)
+    import zlib
+
+    if not mats or zlib.crc32(repr(tf).encode()) % 2:
+        return M["TransformDict"](mats)
+    # the same registry WITH A HISTORY, as the library produces it for interpolated frames (deepcopy of another
+    # frame's registry, then the entries are replaced): built from decoy matrices, queried in both directions,
+    # copied, every entry overwritten with the real matrix. A correct registry behaves like a fresh one.
+    from copy import deepcopy
+
+    decoys = [M["HomogeneousMatrix"]((m.position[0] + 37.5, m.position[1] - 61.25, m.position[2] + 1.5),
+                                     M["Quaternion"](axis=[0, 0, 1], angle=1.1) * m.rotation, m.src, m.dst) for m in mats]
+    td = M["TransformDict"](decoys)
+    for m in mats:
+        for key in ((m.src, m.dst), (m.dst, m.src)):
+            try:
+                td.transform(key, (1.0, 2.0, 0.5))
+            except Exception:
+                pass
+    td = deepcopy(td)
+    for m in mats:
+        td[(m.src, m.dst)] = m
+    return td
 
 
 def _mk_params(P):
